@@ -264,6 +264,12 @@ func tupleSource(m *core.Model, f *core.Func, e ast.Expr) (*ast.CallExpr, int) {
 			return true
 		}
 		for i, l := range as.Lhs {
+			if a, b := identOf(l), identOf(e); a != nil && b != nil {
+				if m.Info.ObjectOf(a) == m.Info.ObjectOf(b) {
+					call, pos = c, i
+				}
+				continue
+			}
 			if m.ExprString(l) == want {
 				call, pos = c, i
 			}
@@ -426,6 +432,29 @@ func constructionsOf(m *core.Model, f *core.Func) []construction {
 		}
 		return true
 	})
+	// a field handed to a callee by address (fill(&v.mask)) is filled there
+	core.InspectNoLits(f.Body, func(n ast.Node) bool {
+		call, ok := n.(*ast.CallExpr)
+		if !ok {
+			return true
+		}
+		for _, a := range call.Args {
+			u, ok := ast.Unparen(a).(*ast.UnaryExpr)
+			if !ok || u.Op != token.AND {
+				continue
+			}
+			sel, ok := ast.Unparen(u.X).(*ast.SelectorExpr)
+			if !ok || m.FieldOf(sel) == nil {
+				continue
+			}
+			if id, ok := ast.Unparen(sel.X).(*ast.Ident); ok {
+				if v, ok := m.Info.ObjectOf(id).(*types.Var); ok && !v.IsField() {
+					stores[v] = append(stores[v], [2]ast.Expr{sel, u})
+				}
+			}
+		}
+		return true
+	})
 	complete := func(cn *construction, v *types.Var) {
 		for _, st := range stores[v] {
 			cn.fields[m.FieldKey(m.FieldOf(st[0].(*ast.SelectorExpr)))] = st[1]
@@ -546,4 +575,27 @@ func loopOverAll(m *core.Model, loop ast.Node, key string) (*ast.BlockStmt, bool
 		return l.Body, true
 	}
 	return nil, false
+}
+
+// valueFields returns the fields with which the struct value denoted by e in f is built: e is a composite literal, a
+// local that names one, or a local filled field by field (see constructionsOf). nil if e is none of these.
+func valueFields(m *core.Model, f *core.Func, e ast.Expr) map[string]ast.Expr {
+	e = ast.Unparen(e)
+	for fn := f; fn != nil; fn = fn.Parent {
+		for _, cn := range constructionsOf(m, fn) {
+			switch n := cn.node.(type) {
+			case *ast.CompositeLit:
+				for _, x := range exprChain(m, f, e, 0) {
+					if ast.Unparen(x) == ast.Expr(n) {
+						return cn.fields
+					}
+				}
+			case *ast.Ident:
+				if id, ok := e.(*ast.Ident); ok && m.Info.ObjectOf(id) == m.Info.ObjectOf(n) {
+					return cn.fields
+				}
+			}
+		}
+	}
+	return nil
 }
